@@ -437,6 +437,9 @@ func (self *PathNode) handleChild(in *[]PathNode, lp *int, cp *int, p *binary.Bi
 	}
 	v := &con[l]
 	l += 1
+	// the slot may be recycled: whatever it held before, the children of its previous occupant are not children of
+	// this node (scanChildren refills Next only when the child is scanned recursively)
+	v.Next = v.Next[:0]
 
 	start := p.Read
 	buf := p.Buf
@@ -537,6 +540,7 @@ func (self *PathNode) handleUnknownChild(in *[]PathNode, lp *int, cp *int, p *bi
 	}
 	v := &con[l]
 	l += 1
+	v.Next = v.Next[:0] // a recycled slot must not keep the children of its previous occupant
 
 	start := p.Read - tagL
 
